@@ -55,7 +55,8 @@ def run(r):
         "code cannot bind names is tied to codegen.rs/vm/mod.rs by the regenerated instruction tables",
         "requests (loop re-entries, self.name()) are served with the frames of the start of their statement",
     ]
-    r.regen_tables(["C18_EXPR_FUNCTIONS", "C18_EXPR_CALLEES", "C18_EXPR_INSTRUCTIONS", "C18_BINDING_INSTRUCTIONS"])
+    r.regen_tables(["C18_EXPR_FUNCTIONS", "C18_EXPR_CALLEES", "C18_EXPR_INSTRUCTIONS", "C18_BINDING_INSTRUCTIONS",
+                    "C18_CONTEXT_READERS", "C18_BUILTIN_FILES"])
     r.lean_prove("MJ.Props.C18", "MJ/Audit/C18.lean", extra_targets=["drive_c18"])
     exe = r.cargo_build("c18")
     if exe is None:
@@ -151,6 +152,19 @@ def run(r):
                     site = "unreported-read-nested"
                     r.oracle_failure(h, f"render (context {ci}) asked the context for `{k}` but no name of "
                                         f"undeclared_variables(true) = {sorted(nested)} starts with it, for {src!r}", site)
+        # ---- oracle, debug mode (separate stream): error reports look the mentioned names up
+        if "debug_reads" in d:
+            toks = d["ast"].split()
+            mentioned = ({toks[i + 1] for i, t in enumerate(toks[:-1]) if t in ("var", "macro")} | {"loop"}
+                         | set(d.get("foreign_mentioned", [])))
+            failed = d.get("debug_outcome", "").startswith("err")
+            r.hist["debug_stream"]["failed render" if failed else "completed render"] += 1
+            for k in d["debug_reads"]:
+                if k.startswith("<") or k in glob or k in und:
+                    continue
+                site = "debug-info:referenced-locals" if failed and k in mentioned else "unreported-read-debug"
+                r.oracle_failure(h, f"render in debug mode asked the context for `{k}` but undeclared_variables(false) = "
+                                    f"{sorted(und)} for {src!r} ({d.get('debug_outcome')})", site)
         # ---- oracle, attribute level: every attribute path the render followed from a context key is
         #      compatible with a reported dotted name (one is a prefix of the other)
         for ci, ps in enumerate(d.get("paths", [])):
